@@ -1089,10 +1089,10 @@ pub fn schedule(prop: Prop, tier: Tier) -> Vec<(&'static str, u64)> {
             ("all2", 16),
             ("all3", 512),
             ("all4", if q { 0 } else { 20_000 }),
-            ("er", if q { 1_200 } else { 30_000 }),
+            ("er", if q { 3_000 } else { 50_000 }),
             ("union", if q { 3_000 } else { 60_000 }),
             ("layered", if q { 1_500 } else { 30_000 }),
-            ("lattice", if q { 800 } else { 15_000 }),
+            ("lattice", if q { 1_500 } else { 20_000 }),
             ("dense", if q { 400 } else { 8_000 }),
             ("dup", if q { 400 } else { 8_000 }),
             ("big-union", if q { 150 } else { 3_000 }),
